@@ -74,7 +74,10 @@ func (ga *GoAway) Deserialize(fr *FrameHeader) (err error) {
 	if len(fr.payload) < 8 { // 8 is the min number of bytes
 		err = ErrMissingBytes
 	} else {
-		ga.stream = http2utils.BytesToUint32(fr.payload)
+		// The bit in front of last-stream-id is reserved and is ignored when
+		// receiving (RFC 7540 6.8), like the one in front of every other
+		// stream identifier.
+		ga.stream = http2utils.BytesToUint32(fr.payload) & (1<<31 - 1)
 		ga.code = ErrorCode(http2utils.BytesToUint32(fr.payload[4:]))
 		// TODO: what?
 
